@@ -27,7 +27,7 @@ THEOREMS = [
     for n in (
         "su_solves_ode_under su_solves_ode_over su_solves_ode_crit su_solves_ode_rb su_solves_ode_rb_damped "
         "su_solves_ode su_coef_eq order0_exact rigidVelo_velocity_exact rf_static run_exact run_length "
-        "accel_eom mNone_eq_mOne cplx_solves_ode cplx_coef_eq cplx_small_exact partition_ok"
+        "accel_eom mNone_eq_mOne cplx_solves_ode cplx_coef_eq cplx_small_exact partition_ok rb_order_agrees"
     ).split()
 ]
 TRUSTED = [
